@@ -443,6 +443,29 @@ func runC09(c *Ctx) {
 				}
 			}
 			c.check(paired, "C09.eviction", get, "Get: hit moves the item to the back (unlink then append after listLast)", u.call, "move-to-back on hit is what makes eviction least-recently-used")
+			// ... on every hit: the only conditions are the lookup's ok, conf.EnableLRU,
+			// and (optionally) "the item is not already the last one" (item.used.next != &c.usage)
+			extra := ""
+			for _, g := range core.GuardsOf(u.call) {
+				cond, truth := core.StripNot(g.Cond, g.Truth)
+				if ex, isEx := cond.(*ssa.Extract); isEx && ex.Index == 1 && truth {
+					if _, isLk := ex.Tuple.(*ssa.Lookup); isLk {
+						continue
+					}
+				}
+				if p := core.PathOf(cond); len(p.Fields) == 2 && p.Fields[0] == "conf" && p.Fields[1] == "EnableLRU" && truth {
+					continue
+				}
+				if b, isB := cond.(*ssa.BinOp); isB && (b.Op == token.NEQ) == truth && (b.Op == token.NEQ || b.Op == token.EQL) {
+					px := core.PathOf(b.X)
+					if n := len(px.Fields); n >= 2 && px.Fields[n-1] == "next" && px.Fields[n-2] == "used" && isUsageList(b.Y) {
+						continue // already the most recently used one: nothing to move
+					}
+				}
+				extra = core.Describe(cond)
+			}
+			c.check(extra == "", "C09.eviction", get, "the move-to-back happens on every hit with LRU on", u.call,
+				"an additional condition ("+extra+") skips the refresh for some hits; the entry just read is then evicted before older ones")
 		}
 		if len(core.CallsTo(get, core.ModPath+"/cache.listAppend")) == 0 {
 			c.check(false, "C09.eviction", get, "Get: hit moves the item to the back", nil, "no re-append in Get: eviction order would be insertion order, not use order")
@@ -506,13 +529,13 @@ func runC09(c *Ctx) {
 			for _, sub := range sizeUpdates(set, token.SUB) {
 				if sameRegion(sub.store, mu) && fromMapLookup(sub.item) && sameKey(lookupKey(sub.item), mu.Key) && core.Dominates(sub.store, mu) == false && core.MayFollow(sub.store, mu) {
 					// the subtraction is conditional (under exists) and precedes the store
-					if guardedByLookupOK(sub.store, sub.item) {
+					if guardedByLookupOK(sub.store, sub.item) && onlyGuardSinceLookup(sub.store, sub.item) {
 						okRepl = true
 					}
 				}
 			}
-			c.check(okRepl, "C09.accounting.insert", set, "replaced entry's size subtracted under `exists`", mu,
-				"when the key is already present its old size leaves the total before the new item is stored")
+			c.check(okRepl, "C09.accounting.insert", set, "replaced entry's size subtracted under `exists` and nothing else", mu,
+				"when the key is already present its old size leaves the total before the new item is stored — also with LRU off")
 		})
 	}
 	if clr != nil {
@@ -1046,6 +1069,34 @@ func guardedByLookupOK(in ssa.Instruction, item ssa.Value) bool {
 		}
 	}
 	return false
+}
+
+// onlyGuardSinceLookup: between the map lookup that produced item and in, the
+// only branch condition in force is the lookup's own ok result — the action
+// happens whenever the key was present, under no further condition.
+func onlyGuardSinceLookup(in ssa.Instruction, item ssa.Value) bool {
+	ex, ok := item.(*ssa.Extract)
+	if !ok {
+		return false
+	}
+	lk, ok := ex.Tuple.(ssa.Instruction)
+	if !ok {
+		return false
+	}
+	before := map[*ssa.If]bool{}
+	for _, g := range core.GuardsOf(lk) {
+		before[g.If] = true
+	}
+	for _, g := range core.GuardsOf(in) {
+		if before[g.If] {
+			continue
+		}
+		if e2, ok := g.Cond.(*ssa.Extract); ok && e2.Tuple == ex.Tuple && e2.Index == 1 && g.Truth {
+			continue
+		}
+		return false
+	}
+	return true
 }
 
 // dependents returns the instructions that use v or a value computed from it
